@@ -284,4 +284,6 @@ def r6(ctx):
     c01.r4(_Sub(ctx, "C11.R6"))
 
 
+EXPLANATION = EXPLANATION + ' (R5) repository idioms; (R6) no state effect before authentication (shared C01.R4): forged datagrams cannot consume sequence numbers or refresh liveness of an honest peer.'
+
 RULES = [("C11.R1", r1), ("C11.R2", r2), ("C11.R3", r3), ("C11.R4", r4), ("C11.R5", r_enum), ("C11.R6", r6)]
